@@ -1,6 +1,7 @@
 import Ptn.C08.Model
 import Ptn.C08.Lemmas
 import Ptn.C08.Stages
+import Ptn.C08.StepLemmas
 /-! Property theorems for C08 (a TEBD step is the ordered product of its Trotter gates and SWAPs).
 Only property theorems and non-vacuity examples live here; helper lemmas are in `Lemmas.lean`
 (splitting, SWAP), `LegLemmas.lean` and `Stages.lean` (leg bookkeeping).
@@ -195,7 +196,91 @@ theorem two_site_tree_structure (t : List TNode) (p c : Nat) (pp : Option Nat) (
   have h2 := afterPair_structure t p c pp A B hnd hP
   exact ⟨h1.1, h1.2, h2.1, h2.2.1, h2.2.2⟩
 
+/-! ### (iv) a whole time step, several time steps, and the operators of the splitting -/
+
+/-- **One TEBD time step.**  For every well-formed tree (distinct identifiers, consistent parent and
+    children fields, acyclic; one physical leg per node) and every list of operators - no site, one
+    existing site, or two tree-adjacent sites in either naming order (SWAPs are such two-site
+    operators) - the loop of `run_one_time_step` completes in the model; the tree keeps every identifier
+    and every parent, child lists are permuted only; and the physical-leg table and the global binding
+    record read off the leg-level model gate by gate equal the *composition in list order*
+    (`specRun`): input `k` of operator number `g` is bound to the then current physical leg of its
+    `k`-th named site, and output `k` becomes that site's physical leg. -/
+theorem tebd_step_legs (t : List TNode) (hwf : TreeWF t) (ops : List (List Nat))
+    (hv : ∀ op ∈ ops, ValidOp t op) (cur : Nat → GLeg) (rc : List Rec) (g : Nat) :
+    ∃ t', runOps ⟨t, cur, rc⟩ g ops =
+        some ⟨t', (specRun (cur, rc) g ops).1, (specRun (cur, rc) g ops).2⟩ ∧
+      t'.map (·.id) = t.map (·.id) ∧ t'.map (·.parent) = t.map (·.parent) ∧
+      (∀ y ∈ t', ∃ x ∈ t, y.id = x.id ∧ y.parent = x.parent ∧ y.children.Perm x.children) ∧
+      TreeWF t' := by
+  obtain ⟨t', h1, hs⟩ := runOps_spec ops hwf hv cur rc g
+  exact ⟨t', h1, hs.ids, hs.parents, fun y hy => hs.mem_right y hy, hwf.sim hs⟩
+
+/-- **Several time steps** are the step list repeated: `k` runs of `run_one_time_step` equal one run
+    over the `k`-fold concatenation of the exponent list (gates numbered consecutively); hence, by
+    `tebd_step_legs`, they complete and realise the composition over the concatenated list. -/
+theorem tebd_steps_compose (ops : List (List Nat)) (k : Nat) (st : GState) (g : Nat) :
+    runSteps ops st g k = runOps st g (List.replicate k ops).flatten :=
+  runSteps_eq ops k st g
+
+theorem tebd_steps_legs (t : List TNode) (hwf : TreeWF t) (ops : List (List Nat))
+    (hv : ∀ op ∈ ops, ValidOp t op) (k : Nat) (cur : Nat → GLeg) (rc : List Rec) (g : Nat) :
+    ∃ t', runSteps ops ⟨t, cur, rc⟩ g k =
+        some ⟨t', (specRun (cur, rc) g (List.replicate k ops).flatten).1,
+                  (specRun (cur, rc) g (List.replicate k ops).flatten).2⟩ ∧
+      t'.map (·.id) = t.map (·.id) ∧ t'.map (·.parent) = t.map (·.parent) ∧
+      (∀ y ∈ t', ∃ x ∈ t, y.id = x.id ∧ y.parent = x.parent ∧ y.children.Perm x.children) ∧
+      TreeWF t' := by
+  rw [tebd_steps_compose]
+  apply tebd_step_legs t hwf
+  intro op hop
+  rw [List.mem_flatten] at hop
+  obtain ⟨l, hl, hol⟩ := hop
+  rw [(List.mem_replicate.mp hl).2] at hol
+  exact hv op hol
+
+/-- **The operators of the splitting.**  `TEBD.exponents` names, in order, for every Trotter step: the
+    pairs of `swaps_before` (each as `[first, second]`), the keys of the step's `TensorProduct` in
+    dictionary order, the pairs of `swaps_after` - whether the swaps were given as `None`, as a
+    `SWAPlist` or (after the repair F-C08a) as a plain list of pairs. -/
+theorem exponents_match_splitting (steps : List SiteStep) :
+    exponentSites steps =
+      (steps.map fun s =>
+        (s.before.norm.map fun pr => [pr.1, pr.2]) ++ [s.keys] ++
+          (s.after.norm.map fun pr => [pr.1, pr.2])).flatten := by
+  unfold exponentSites
+  rw [splitting_order, List.map_map]
+  congr 1
+  apply List.map_congr_left
+  intro s _
+  simp [swapSites_eq]
+
+/-- A plain list of pairs and the same pairs wrapped in a `SWAPlist` give the same operators. -/
+theorem exponents_plain_list (keys : List Nat) (b a : List (Nat × Nat)) (rest : List SiteStep) :
+    exponentSites (⟨keys, .plain b, .plain a⟩ :: rest) =
+      exponentSites (⟨keys, .swaplist b, .swaplist a⟩ :: rest) := by
+  rw [exponents_match_splitting, exponents_match_splitting]
+  rfl
+
 /-! ### non-vacuity -/
+
+-- the tree 0 - {1 - {3}, 2}
+example : TreeWF [⟨0, none, [1, 2]⟩, ⟨1, some 0, [3]⟩, ⟨2, some 0, []⟩, ⟨3, some 1, []⟩] := by
+  refine ⟨by decide, by decide, by decide, by decide, ⟨fun n => if n = 0 then 0 else if n = 3 then 2 else 1, by decide⟩⟩
+
+example : ValidOp [⟨0, none, [1, 2]⟩, ⟨1, some 0, [3]⟩, ⟨2, some 0, []⟩, ⟨3, some 1, []⟩] [3, 1] :=
+  ⟨⟨3, some 1, []⟩, by decide, ⟨1, some 0, [3]⟩, by decide, rfl, rfl, Or.inr rfl⟩
+
+-- SWAP(0,2); gate on (3,1) (child first); single-site gate on 1; gate on (1,0): the record composes
+example : (runOps ⟨[⟨0, none, [1, 2]⟩, ⟨1, some 0, [3]⟩, ⟨2, some 0, []⟩, ⟨3, some 1, []⟩],
+      GLeg.init, []⟩ 0 [[0, 2], [3, 1], [1], [1, 0]]).map (fun st => (st.tree, st.record)) =
+    some ([⟨0, none, [1, 2]⟩, ⟨1, some 0, [3]⟩, ⟨2, some 0, []⟩, ⟨3, some 1, []⟩],
+          [(GLeg.init 0, 0, 0), (GLeg.init 2, 0, 1), (GLeg.init 3, 1, 0), (GLeg.init 1, 1, 1),
+           (GLeg.out 1 1, 2, 0), (GLeg.out 2 0, 3, 0), (GLeg.out 0 0, 3, 1)]) := by decide
+
+example : exponentSites [⟨[5, 4], .plain [(4, 5)], .none⟩, ⟨[7], .swaplist [(1, 2), (2, 1)], .plain [(3, 4)]⟩] =
+    [[4, 5], [5, 4], [1, 2], [2, 1], [7], [3, 4]] := by decide
+
 
 -- a four-node tree 0 - {1 - {3}, 2}: gates on (0,2) then (3,1) (child named first)
 example : applyPairs [⟨0, none, [1, 2]⟩, ⟨1, some 0, [3]⟩, ⟨2, some 0, []⟩, ⟨3, some 1, []⟩]
